@@ -645,28 +645,27 @@ Section Proofs.
   Qed.
 
   (* Bivariate: the guard is `if not self.theta`, so theta = 0 counts as unfitted.
-     Every query EXCEPT sample and to_dict raises NotFittedError ... *)
+     Every query AND sample (since the F23 fix) raises NotFittedError, without touching any generator *)
   Theorem unfitted_raises_biv : forall b t k n g,
-      b_cls b = Some t -> t <> Independence -> theta_unset b = true -> k <> BSample ->
+      b_cls b = Some t -> t <> Independence -> theta_unset b = true -> b_init b = true ->
       query_biv b k n g = (b, g, ObsErr NotFitted).
   Proof.
-    intros b t k n g Hc Ht Hu Hk. unfold query_biv, check_fit_biv. rewrite Hc, Hu.
+    intros b t k n g Hc Ht Hu Hi. unfold query_biv, check_fit_biv. rewrite Hc, Hu, Hi.
     destruct k; try congruence; destruct t; try congruence; reflexivity.
   Qed.
 
-  (* ... sample on a never-fitted copula raises TypeError (tau is None), not NotFittedError *)
-  Theorem unfitted_biv_sample_refuted : forall t rs n g,
+  (* ... in particular sample on a never-fitted copula (before the fix: TypeError, tau is None) *)
+  Theorem unfitted_biv_sample : forall t rs n g,
       query_biv (mkB (Some t) JNone JNone rs true) BSample n g
-      = (mkB (Some t) JNone JNone rs true, g, ObsErr TypeErr).
+      = (mkB (Some t) JNone JNone rs true, g, ObsErr NotFitted).
   Proof. reflexivity. Qed.
 
-  (* ... with theta = tau = 0 sample does raise NotFittedError, but only AFTER drawing
-     from the generator *)
+  (* ... and with theta = tau = 0 (Clayton fitted on tau = 0 data) sample raises NotFittedError BEFORE drawing
+     (before the fix: after two draws from the generator) *)
   Theorem unfitted_biv_sample_theta0 : forall t n g,
-      t <> Independence ->
       query_biv (mkB (Some t) (JNum 0) (JNum 0) None true) BSample n g
-      = (mkB (Some t) (JNum 0) (JNum 0) None true, mkDraw (JStr "biv.sample") n :: g, ObsErr NotFitted).
-  Proof. intros t n g H. destruct t; try congruence; reflexivity. Qed.
+      = (mkB (Some t) (JNum 0) (JNum 0) None true, g, ObsErr NotFitted).
+  Proof. intros t n g. reflexivity. Qed.
 
   (* ... and to_dict never raises: it returns a dict with theta = tau = None *)
   Theorem unfitted_biv_to_dict_refuted : forall t rs i,
